@@ -317,7 +317,8 @@ func init() {
 			nrand = 6000
 		}
 		for k := 0; k < nrand; k++ {
-			c := hcase{kind: compressingKinds[r.intn(5)], n: 1 + r.intn(5), wrapper: wrappers[r.intn(len(wrappers))]}
+			c := hcase{kind: compressingKinds[r.intn(5)], n: 1 + r.intn(5)}
+			c.wrapper = pickWrapper(r, c.kind)
 			l := 5 + r.intn(40)
 			for i := 0; i < l; i++ {
 				sym := "aaaaaaabbbgurrxff00123i"[r.intn(23)]
@@ -346,13 +347,13 @@ func init() {
 			gen  func() []byte
 		}
 		pieces := []piece{
-			{"c", func() []byte { return c11Segment(r, "base", 3, -1, "AA", false) }},                     // chunk, no metadata
-			{"d", func() []byte { return c11Segment(r, "batch", 1, -1, "BB", false) }},                    // two chunks, no metadata
-			{"m", func() []byte { return c11Segment(r, "base", 3, 0, "A", false) }},                       // metadata + chunk from a collector
-			{"0", func() []byte { return c11Stray(r, '0', r.intn(8)) }},                                   // stray type-0 document
-			{"9", func() []byte { return c11Stray(r, '0', 1) }},                                           // a fixed other type-0 document
-			{"u", func() []byte { return c11Stray(r, 'u', r.intn(8)) }},                                   // unknown type
-			{"e", func() []byte { return c11Stray(r, 'e', r.intn(3)) }},                                   // unreadable chunk
+			{"c", func() []byte { return c11Segment(r, "base", 3, -1, "AA", false) }},                          // chunk, no metadata
+			{"d", func() []byte { return c11Segment(r, "batch", 1, -1, "BB", false) }},                         // two chunks, no metadata
+			{"m", func() []byte { return c11Segment(r, "base", 3, 0, "A", false) }},                            // metadata + chunk from a collector
+			{"0", func() []byte { return c11Stray(r, '0', r.intn(8)) }},                                        // stray type-0 document
+			{"9", func() []byte { return c11Stray(r, '0', 1) }},                                                // a fixed other type-0 document
+			{"u", func() []byte { return c11Stray(r, 'u', r.intn(8)) }},                                        // unknown type
+			{"e", func() []byte { return c11Stray(r, 'e', r.intn(3)) }},                                        // unreadable chunk
 			{"t", func() []byte { return c11Retype(c11Segment(r, "base", 2, -1, "AAA", false), 1+r.intn(2)) }}, // chunk typed int64/double 1
 		}
 		names := ""
